@@ -174,7 +174,10 @@ PROPS['C08'] = dict(
 
 PROPS['C12'] = dict(
     engine='A', technique='symbolic-scalar execution of the real generic interpolate<T,order,Solver> with a nondeterministic linear-solver stub (arbitrary solution of M x = b) + QF_NRA obligations, exact-rational replay',
-    harnesses=[dict(name='C12_interp', src='C12_interp.cpp',
+    harnesses=[dict(name='C12_interp_large', src='C12_interp.cpp', chunk=1,
+                    defs=dict(quick=['-DFIXED_GRID', '-DLARGE_MORE'], thorough=['-DFIXED_GRID', '-DLARGE_MORE']),
+                    functions=['interpolate<T,order,Solver> on fixed rational abscissae: 7..17 nodes for orders 1..4 (as whole grid and as windows starting at index 2 and 5), orders 5, 6, 8 (thorough: 7, 10, 12) with 2..5 nodes; default and two explicit boundary sequences']),
+               dict(name='C12_interp', src='C12_interp.cpp',
                     defs=dict(quick=['-DMAXO=4', '-DMAXNODES=4', '-DFULLSEQ_MAXO=3'], thorough=['-DMAXO=5', '-DMAXNODES=5', '-DFULLSEQ_MAXO=4']),
                     functions=['interpolation::interpolate<T,order,Solver>', 'interpolation::internal::defaultBoundaries', 'internal::facultyRatio', 'Support::operator[]', 'Support::size',
                                'Support::back', 'Spline::Spline', 'Spline::operator()', 'Spline::findInterval'])],
@@ -189,7 +192,10 @@ PROPS['C12'] = dict(
 
 PROPS['C17'] = dict(
     engine='A', technique='symbolic-scalar execution of the real integrate<n> over an exact Gauss-Legendre stub (algebraic nodes as constrained symbols) + QF_NRA obligations; replay in an exact tower of quadratic extensions of Q',
-    harnesses=[dict(name='C17_quadrature', src='C17_quadrature.cpp', pre_includes=['symt/stub'],
+    harnesses=[dict(name='C17_quadrature_large', src='C17_quadrature.cpp', pre_includes=['symt/stub'], chunk=1,
+                    defs=dict(quick=['-DFIXED_GRID', '-DLARGE=17'], thorough=['-DFIXED_GRID', '-DLARGE=20', '-DNSAMPLE=12']),
+                    functions=['integrate<n> on sampled window pairs of a 17-point (thorough: 20-point) fixed rational grid for (n,o1,o2,d) in {(2,1,1,1),(3,2,1,2),(2,0,3,0)}; (4,3,3,1), (4,5,2,0), (5,4,4,1), (5,6,3,0), (5,2,5,2) on 2..3-point grids']),
+               dict(name='C17_quadrature', src='C17_quadrature.cpp', pre_includes=['symt/stub'],
                     defs=dict(quick=['-DMAXQ=4', '-DMAXO=2', '-DMAXN=4'], thorough=['-DMAXQ=5', '-DMAXO=3', '-DMAXN=4']),
                     functions=['integration::integrate<n>', 'Support::calcIntersection', 'Support::intervalIndexFromAbsolute', 'Support::absoluteFromRelative', 'Support::at', 'Grid::at',
                                'internal::evaluateInterval', 'BilinearForm::evaluate (weight as X-polynomial operator)'])],
@@ -234,7 +240,10 @@ PROPS['C14'] = dict(
 
 PROPS['C10'] = dict(
     engine='A+B', irsym=[dict(module='c13', checks=[4, 6], params=dict(quick=dict(nmax_data=3), thorough=dict(nmax_data=3)))], technique='symbolic-scalar execution of operation sequences over a pool of real objects from every valid shape; class invariants checked on every live object after every step (inductive step + bounded sequences)',
-    harnesses=[dict(name='C10_invariants', src='C10_invariants.cpp',
+    harnesses=[dict(name='C10_invariants_large', src='C10_invariants.cpp',
+                    defs=dict(quick=['-DFIXED_GRID', '-DLARGE=17', '-DSEQLEN=2'], thorough=['-DFIXED_GRID', '-DLARGE=20', '-DNSAMPLE=9', '-DSEQLEN=2']),
+                    functions=['the 18 operations (each alone, and sampled two-step sequences) from sampled window pairs of a 17-point (thorough: 20-point) fixed rational grid; the Support life cycle on every window pair of a 12-point grid']),
+               dict(name='C10_invariants', src='C10_invariants.cpp',
                     defs=dict(quick=['-DMAXN=3', '-DSEQLEN=2'], thorough=['-DMAXN=4', '-DSEQLEN=2']),
                     functions=['Spline constructors', 'Spline copy/move construction and assignment (incl. self-assignment, self-move, std::swap)', 'Spline::operator=(lower order)', 'Spline::setData',
                                'Spline::operator+=,-=,*=,/=', 'Spline::operator+,*', 'operator*(Operator,Spline)', 'linearCombination', 'Support constructors/copy/move/move-assignment',
